@@ -213,27 +213,39 @@ def arg_mode_bracketed(ctx):
             and p.scope_key(u, n.targets[0].slice) == 'core.MIN_MODE' and is_name(n.targets[0].value, scope)]
     evs = evaluator_calls(p, u)
     rets = [n for n in u.own_nodes() if isinstance(n, ast.Return)]
-    ctx.require(len(saves) == 1 and len(sets) == 2 and len(evs) == 1 and len(rets) == 1,
-                'arg_val: expected save / set / evaluate / restore / return (%d %d %d %d)'
-                % (len(saves), len(sets), len(evs), len(rets)))
+    ctx.require(len(saves) == 1 and len(evs) == 1 and rets, 'arg_val: save of MIN_MODE / evaluation / return not found')
     saved = saves[0].targets[0].id
-    set_, restore = sorted(sets, key=lambda n: n.lineno)
-    order = [cfg.node_of(saves[0]), cfg.node_of(set_), cfg.node_containing(evs[0]), cfg.node_of(restore), cfg.node_of(rets[0])]
-    ok = all(cfg.dominates(a, b) and a is not b for a, b in zip(order, order[1:]))
-    ctx.ob(ok, u, 'argument mode is bracketed: save, set, evaluate, restore, return')
-    ctx.ob(is_name(restore.value, saved), u, 'the previous MIN_MODE is restored: %s' % norm(restore), node=restore)
-    v = set_.value
-    ok = isinstance(v, ast.Attribute) and isinstance(v.value, ast.Call) and callee_qual(p, u, v.value) == 'core._ArgValuator'
-    ctx.ob(ok, u, 'argument mode is a fresh valuator\'s mode function: %s' % norm(set_), node=set_)
-    if ok:
-        mu = p.find_unit('core._ArgValuator.' + v.attr)
-        ctx.ob(mu is not None, u, 'the installed mode function exists: _ArgValuator.%s' % v.attr)
+    installs = [s_ for s_ in sets if not is_name(s_.value, saved)]
+    restores = [s_ for s_ in sets if is_name(s_.value, saved)]
+    ctx.ob(len(installs) == 1, u, 'argument mode is installed once: %s' % [norm(x) for x in installs])
+    ctx.ob(len(restores) >= 1, u, 'the previous MIN_MODE is restored: %s' % [norm(x) for x in restores])
+    if installs and restores:
+        sn, inn, en = cfg.node_of(saves[0]), cfg.node_of(installs[0]), cfg.node_containing(evs[0])
+        rns = {cfg.node_of(r) for r in restores}
+        ctx.ob(cfg.dominates(sn, inn) and cfg.dominates(inn, en), u, 'save, then install, then evaluate')
+        # every normal path from the install to the function exit passes a restore
+        okp, path = cfg.must_pass(inn, {cfg.exit}, rns, labels=lambda l: l != 'exc')
+        ctx.ob(okp, u, 'every normal return of arg_val comes after the restore',
+               '' if okp else 'a path returns with argument mode still installed on the caller\'s frame: everything evaluated '
+               'next in that frame (later tuple steps, dict values) is treated as a literal argument',
+               witness=fmt_witness(cfg, path))
+        for rn in rns:
+            ctx.ob(cfg.dominates(en, rn), u, 'the restore follows the evaluation')
+    if installs:
+        set_ = installs[0]
+        v = set_.value
+        ok = isinstance(v, ast.Attribute) and isinstance(v.value, ast.Call) and callee_qual(p, u, v.value) == 'core._ArgValuator'
+        ctx.ob(ok, u, 'argument mode is a fresh valuator\'s mode function: %s' % norm(set_), node=set_)
+        if ok:
+            mu = p.find_unit('core._ArgValuator.' + v.attr)
+            ctx.ob(mu is not None, u, 'the installed mode function exists: _ArgValuator.%s' % v.attr)
     e = evs[0]
     ok = [a.id if isinstance(a, ast.Name) else None for a in e.args] == [u.params[0], u.params[1], scope]
     ctx.ob(ok, u, 'the argument is evaluated on the given target in this frame: %s' % norm(e), node=e)
     st = stmt_of(e)
-    ctx.ob(isinstance(st, ast.Assign) and is_name(rets[0].value, st.targets[0].id if is_name(st.targets[0]) else None), u,
-           'the evaluated argument is returned: %s' % norm(rets[0]))
+    rv = st.targets[0].id if isinstance(st, ast.Assign) and is_name(st.targets[0]) else None
+    ctx.ob(rv is not None and all(is_name(r.value, rv) for r in rets), u,
+           'the evaluated argument is what is returned: %s' % [norm(r) for r in rets])
     # call sites: none under a recovering handler of the same frame
     n_sites = 0
     for cu in p.package_units():
